@@ -48,9 +48,9 @@ type Feed struct {
 	VehEntity  []int
 	// IDLess lists entity indexes of vehicle positions without a usable descriptor,
 	// with the associated trip index or -1.
-	IDLess      []int
-	IDLessTrip  []int
-	Features    []string
+	IDLess     []int
+	IDLessTrip []int
+	Features   []string
 }
 
 func (f *Feed) feat(s string) { f.Features = append(f.Features, s) }
